@@ -1684,6 +1684,9 @@ func (w *envelopingWriter) maybeInit() {
 	// synthesize envelope
 	if limit := int(w.rw.op.methodConf.maxMsgBufferBytes); w.rw.contentLen > limit {
 		w.err = bufferLimitError(int64(limit))
+		// report it as what it is; otherwise the RPC ends with "declared content-length
+		// N but wrote 0 bytes" (unknown) once the handler's writes have been refused
+		w.rw.reportError(w.err)
 		return
 	}
 	var env envelope
